@@ -92,7 +92,9 @@ def main(tier):
     behs = behs + longs + seeds
     events, comp = layerb.run_behaviours(chk, "C01", behs, fcheck=False, dt_of=lambda tid: DTS[tid % len(DTS)] if tid < nshort else 0.4, F0_of=lambda tid: F0S[tid % len(F0S)])
     rs = np.random.default_rng(SEED + 1)
-    size_sweep(chk, list(range(1, 401 if quick else 1501)) + sorted({int(x) for x in rs.integers(401, 10001, size=8 if quick else 60)}))
+    # larger counts: seeded draws below the switch to the banded Jacobian (4632 grains), and (thorough tier) ONE count above it (the
+    # banded work array of the solver grows to several GB - at 10 000 grains a single update held 21 GB resident)
+    size_sweep(chk, list(range(1, 401 if quick else 1501)) + sorted({int(x) for x in rs.integers(401, 4633, size=8 if quick else 24)}) + ([] if quick else [4700]))
     # coverage of the discrete classes actually exercised
     seen = dict(triples=set(), flows=set(), textures=set(), ns=set(), pars=set())
     for b in behs:
